@@ -3,6 +3,8 @@ CONSTANT Deviations = {}
 CONSTANT MaxLenQ = 3
 CONSTANT MaxLenT = 3
 CONSTANT MaxLenMixed = 2
+CONSTANT MaxSetT = 3
+CONSTANT MaxSetPh = 5
 CONSTANT MaxLenCustom = 2
 INVARIANT Requirements
 INVARIANT ResolverMaps
